@@ -107,7 +107,10 @@ def main(argv=None):
                 with open(out) as f:
                     frag = json.load(f)
             except Exception:
-                tail = open(os.path.join(tmp, f"log{i}.txt")).read()[-3000:]
+                try:
+                    tail = open(os.path.join(tmp, f"log{i}.txt")).read()[-3000:]
+                except OSError:
+                    tail = "(shard log missing)"
                 errors.append(f"shard {i}: no fragment (exit {p.returncode})\n{tail}")
                 continue
             if not frag.get("ok"):
@@ -221,5 +224,17 @@ def main(argv=None):
     return 0
 
 
+def _guarded():
+    try:
+        return main()
+    except SystemExit:
+        raise
+    except BaseException as e:  # a crash of the runner itself is a harness error, never a verdict
+        import traceback
+
+        eprint(f"HARNESS-ERROR: runner crashed: {type(e).__name__}: {e}\n{traceback.format_exc()[-1500:]}")
+        return 2
+
+
 if __name__ == "__main__":
-    sys.exit(main())
+    sys.exit(_guarded())
